@@ -20,7 +20,7 @@ LEVEL = "proof"
 VARIANT = "full"
 ASSUMPTIONS = [
     "C09: PARTIAL: absence of out-of-bounds access, use-after-free and undefined behaviour in the C text is NOT proved (no C semantics available: VST/CompCert are not installed); it is observed under ASan/UBSan/LSan on the generated inputs; what is proved is the reference-count discipline of the modelled glue and the buffer-size obligations",
-    "C09: proved on the model (coq/Mem/Own.v: a heap of reference-counted JSON nodes with jansson's ownership rules; Stuck = use or release of a freed node): jose_jws_hdr, jose_jwe_hdr, the prt/hdr prologue of jose_jwe_dec_cek_io, encode_protected are balanced for EVERY JSON tree (every type of every member at every depth): never Stuck, the caller's heap is restored exactly after the result is released, nothing the function created stays alive; zip_in_protected_header / handle_zip_enc (header part) are balanced exactly when 'protected' is not a decodable string and leak the decoded header otherwise (refuted theorems with witnesses; the patched text is proved balanced for every tree); jwe_hdr_set_new is checked for every combination of member kinds by computation (not for arbitrary subtrees)",
+    "C09: proved on the model (coq/Mem/Own.v: a heap of reference-counted JSON nodes with jansson's ownership rules; Stuck = use or release of a freed node): jose_jws_hdr, jose_jwe_hdr, the prt/hdr prologue of jose_jwe_dec_cek_io, zip_in_protected_header, the zip epilogue of jose_jwe_enc_cek_io and encode_protected are balanced for EVERY JSON tree (every type of every member at every depth, present or absent) and every base64 decoder: never Stuck, the caller's heap is restored exactly after the result is released, nothing the function created stays alive; jwe_hdr_set_new is checked for every combination of member kinds by computation in the kernel (NOT for arbitrary subtrees: the full statement is in C09_NOTES.md); find_alg and the ios_auto arrays are not modelled; the texts repaired while this check was written (530be9d, cba5ab8, cd23cd6) are kept as regression witnesses that the model does see those defects",
     "C09: the model's programs are hand translations of the C text (line by line, the C statement next to each line); jansson's semantics (json_object_get borrows, set_new steals also on failure, set increfs, update_missing increfs the values it adds, decref at 1 frees and releases the children, json_auto_t releases what the variable holds at scope exit) is the model's definition, not verified against jansson; allocation failure is not modelled (C20)",
     "C09: buffer obligations (coq/Mem/Buffers.v): the list of jose_b64_dec/_buf call sites with a non-NULL output is written by hand and compared with a regex scan of /repo/lib on every run (a new or changed site fails the check); the theorem is 'under the recorded guard the requested length is at most the destination capacity', combined with dec_buf_bounds (every write index < requested length); that the recorded capacity / guard are what the C text says is read off the source, not proved",
     "C09: dynamic side: 'every JSON input' is the generated family only (valid objects of every registered algorithm produced by the library, then single structured mutations: deletion, 8-way type substitution at every depth including inside the encoded protected header, string edits, nesting changes, on every argument position); RSA key generation is excluded from the mutation stream (cost) unless the template fails before generating",
@@ -497,7 +497,7 @@ def gen(ctx, T, masked=()):
             break
     # stage 3 (thorough): two mutations at once
     if tier == "thorough":
-        n = min(100000, max(0, budget - len(cases)))
+        n = min(60000, max(0, budget - len(cases)))     # the single mutations are exhausted around 120 000 cases
         allm = [(k, x) for k in keys_ for x in strata[k][:3] if not (k[3].endswith("huge") or k[3].endswith("ext-66000"))]
         for _ in range(n):
             (k1, (ti, ai, mv)) = rnd.choice(allm)
